@@ -13,7 +13,17 @@ def run(ctx, model_available=True):
              other_internal=1, stream=0.7)
     profiles = [Profile(weights=w, p_manip=0.15, p_send=0.15, restore=0.6, start_versions=[None, None, "1.4", "2.0", "2.1", "2.2"]),
                 Profile(weights=w, p_manip=0.1, p_send=0.1, restore=0.7, unknown_node=0.05, start_versions=[None, "1.5", "2.0", "2.2"])]
-    return run_property(ctx, "C06", profiles=profiles, n_quick=700, n_thorough=12000, oracle=oracle_c06,
+    # directed: a node flagged for reboot reports the value it reported before / a new value /
+    # an empty value; a node asks for a stored empty value
+    hs = []
+    for v in (None, "1.4", "1.5", "2.0", "2.1", "2.2"):
+        for stored, again in (("20.5", "20.5"), ("20.5", "21"), ("", ""), ("0", "0"), ("on", "")):
+            ops = [("recv", f"0;255;3;0;2;{v}", ())] if v else []
+            ops += [("put_node", 7, 17, "2.0", False), ("add_child", 7, 1, 3), ("recv", f"7;1;1;0;2;{stored}", ()),
+                    ("recv", "7;1;2;0;2;", ()), ("set_reboot", 7, True), ("recv", f"7;1;1;0;2;{again}", ()),
+                    ("recv", "7;1;2;0;2;", ()), ("recv", f"7;1;1;0;2;{again}", ())]
+            hs.append(ops)
+    return run_property(ctx, "C06", profiles=profiles, histories=hs, n_quick=700, n_thorough=12000, oracle=oracle_c06,
                         model_available=model_available,
                         assumptions=["the time reply is compared with the controller clock bracketed around the step (calendar.timegm(time.localtime()))",
                                      "write-fault steps are excluded here (C08/C10 cover them); order between a presentation request and the version query is compared through the model, the oracle compares multisets"])
